@@ -342,8 +342,11 @@ class Chord:
         -------
 
         """
+        from .tonality import Tonality
         new_chord = self.copy()
-        new_chord.tonality = new_chord.tonality.change_mode(mode)
+        # A chord written without a tonality is in C major (see scale_pitches)
+        tonality = new_chord.tonality if new_chord.tonality is not None else Tonality(0)
+        new_chord.tonality = tonality.change_mode(mode)
         return new_chord
 
     @cached_property
